@@ -249,9 +249,12 @@ def gen_recipe(rng, fmt, nfiles=None, f14=False, tag=''):
         name = stem + rng.choice(spec['exts'])
         files.append({'name': name, 'src': src, 'damage': gen_damage(rng, fmt, src) if pos in dam_pos else None})
     if f14:
-        a, b = spec['valid'][0], spec['valid'][1]
-        files.append({'name': 'b.dlis', 'src': a, 'damage': None})
-        files.append({'name': 'b.DLIS', 'src': b, 'damage': None})
+        # two inputs whose names differ only in the extension: RP66V1 gives them one output path (finding F14);
+        # the LIS and BIT naming rules keep the extension, so there the pair must stay apart
+        a, b = spec['valid'][0], spec['valid'][-1 if fmt != 'rp' else 1]
+        e = spec['exts'][0]
+        files.append({'name': 'b' + e, 'src': a, 'damage': None})
+        files.append({'name': 'b' + e.upper(), 'src': b, 'damage': None})
     opt = rng.choice([['slice', None, None, None], ['slice', 0, None, 4], ['slice', 2, 200, 3], ['sample', 16], ['sample', 64]])
     if fmt != 'rp' and opt == ['slice', None, None, None] and rng.random() < 0.7:
         opt = ['sample', 48]              # keep the big LIS/BIT outputs small most of the time
@@ -905,7 +908,7 @@ def run(ctx):
     k = 0
     for fmt, nd in plan(ctx):
         for d in range(nd):
-            f14 = (fmt == 'rp' and d == 0)
+            f14 = (d == 0)
             nfiles = 4 if (d == 1) else (24 if d == 2 else None)
             recipe = gen_recipe(ctx.rng, fmt, nfiles=nfiles, f14=f14, tag='%s%d' % (fmt, d))
             dbase = os.path.join(base, 'd%d' % k); k += 1
@@ -927,7 +930,7 @@ def search(ctx):
     k = 0
     for fmt in ('rp', 'lis', 'bit', 'rp', 'lis', 'bit'):
         for d in range(6):
-            recipe = gen_recipe(ctx.rng, fmt, tag='search-%s%d' % (fmt, d))
+            recipe = gen_recipe(ctx.rng, fmt, f14=(d == 0), tag='search-%s%d' % (fmt, d))
             dbase = os.path.join(base, 'd%d' % k); k += 1
             r = run_directory(recipe, dbase, modes)
             fails, single = evaluate(ctx, recipe, r, modes)
